@@ -168,7 +168,7 @@ func c11Check(c c11Case) vfResult {
 	return r
 }
 
-var c11Alphabet = []byte{'a', ' ', '\n', 0x7f, 0x1b, 0xc0, 0xc3, 0xe0, 0xe2, 0xed, 0xf0, 0xf4, 0xf5, 0x80, 0x85, 0x9f, 0xa0, 0xa9, 0xbf, 0xff, 0xfe, 0xef, 0xbb, 0x00}
+var c11Alphabet = []byte{'a', ' ', '\n', 0x7f, 0x1b, 0xc0, 0xc3, 0xe0, 0xe2, 0xed, 0xf0, 0xf4, 0xf5, 0x80, 0x85, 0x9f, 0xa0, 0xa9, 0xbf, 0xff, 0xfe, 0xef, 0xbb, 0x00, 0xbd}
 
 func c11Enumerate(t *testing.T, maxLen int) {
 	sh, nsh := vfShard(), vfNShards()
@@ -247,6 +247,11 @@ var c11Texts = []string{
 	"\xed\xa0\x80 surrogate",
 	"\xc0\xaf overlong",
 	"\xf4\x90\x80\x80 too large",
+	// boundary code points of every encoded length, non-characters and the replacement character
+	"U+0080 \u0080 U+07FF \u07ff U+0800 \u0800 U+D7FF \ud7ff U+E000 \ue000 U+FFFD \ufffd U+FFFE \ufffe U+FFFF \uffff U+10000 \U00010000 U+10FFFF \U0010ffff end",
+	"replacement \ufffd character and object replacement \ufffc; private use \uf8ff",
+	"\ufffd",
+	"x\ufffd\xe2\x82",
 }
 
 func c11Gen(t *rapid.T) c11Case {
@@ -260,10 +265,11 @@ func c11Gen(t *rapid.T) c11Case {
 	case 1: // pieces
 		n := rapid.IntRange(1, 8).Draw(t, "n")
 		for i := 0; i < n; i++ {
-			x = append(x, rapid.SampledFrom([]string{"a", "text ", "\n", "\xc3\xa9", "\xe2\x82\xac", "\xf0\x9f\x98\x80", "\xe9", "\x85", "\x93", "\xa0", "\xff", "\xc3", "\xe2\x82", "\xf0\x9f\x98", "\x1b", "\x7f", "\xed\xa0\x80", "\xc0\x80", "\xef\xbb\xbf", "\xff\xfe", "\xfe\xff"}).Draw(t, "pc")...)
+			x = append(x, rapid.SampledFrom([]string{"a", "text ", "\n", "\xc3\xa9", "\xe2\x82\xac", "\xf0\x9f\x98\x80", "\xe9", "\x85", "\x93", "\xa0", "\xff", "\xc3", "\xe2\x82", "\xf0\x9f\x98", "\x1b", "\x7f", "\xed\xa0\x80", "\xc0\x80", "\xef\xbb\xbf", "\xff\xfe", "\xfe\xff",
+				"\ufffd", "\ufffe", "\uffff", "\u0080", "\u07ff", "\u0800", "\ud7ff", "\ue000", "\U00010000", "\U0010ffff", "\xf4\x8f\xbf", "\xef\xbf"}).Draw(t, "pc")...)
 		}
 	case 2: // byte-class string, longer than the exhaustive scope
-		x = rapid.SliceOfN(rapid.SampledFrom(c11Alphabet[:23]), 6, 14).Draw(t, "cls")
+		x = rapid.SliceOfN(rapid.SampledFrom(append(append([]byte(nil), c11Alphabet[:23]...), 0xbd)), 6, 14).Draw(t, "cls")
 	default: // latin text with high bytes
 		n := rapid.IntRange(1, 20).Draw(t, "n")
 		for i := 0; i < n; i++ {
